@@ -162,6 +162,19 @@ def reference_parse_operand(ctx, T):
         out[key] = diffs or [key + " differs"]
         pinned = pinned or load_pinned_T()
         T[key] = pinned[key]
+    # the grammar tables and the header: C08 / C09 (and C16 through the extraction) own the comparison with the pinned snapshot and
+    # need the translation itself; every other property's generators and oracles are made independent of the working tree's tables
+    if ctx.prop not in ("C08", "C09", "C16"):
+        for key in ("core", "glsl", "opencl", "header"):
+            if key not in T:
+                continue
+            cur = json.loads(json.dumps(T[key]))
+            if key == "header":
+                cur = {k: v for k, v in cur.items() if k != "enum_by_name"}
+            if cur != ref[key]:
+                pinned = pinned or load_pinned_T()
+                T[key] = pinned[key]
+                out.setdefault("substituted", []).append(key)
     ctx.data["reference_diffs"] = out
 
 
@@ -170,7 +183,7 @@ def oblige_reference(ctx):
     out = ctx.data.get("reference_diffs") or {}
     mine = []
     for key, props in REFERENCE_KEYS.items():
-        if ctx.prop in props and key in out:
+        if ctx.prop in props and key in out and key != "substituted":
             ctx.oblige(f"reference: the table translated from the generated file behind `{key}` equals the pinned snapshot for this grammar", not out[key])
             mine += out[key]
     return mine
